@@ -48,16 +48,30 @@ def gen_knn_case(rng, tier, *, model=None, metrics=None, max_n=None, gclasses=No
     case = {"model": model, "metric": metric, "gclass": gc, "pattern": pattern, "X": X.tolist(), "Y": Y.tolist(),
             "V": V.tolist(), "YV": [int(v) for v in YV], "Q": Q.tolist(), "min_k": min_k, "max_k": max_k, "pre": None,
             "refit": bool(rng.random() < 0.15), "kwcall": bool(rng.random() < 0.2)}
+    if model == "unsup":
+        r = rng.random()
+        if r < 0.1:
+            ids = rng.choice(np.arange(257, 100000), size=int(Y.max()) + 1, replace=False)      # arbitrary class identifiers
+            case["Y"] = [int(ids[v]) for v in Y]
+        elif r < 0.2:
+            case["no_labels"] = True                     # fit(X) without labels: every true label is 0
+            case["Y"] = [0] * n
+    if gc == "G2" and rng.random() < 0.3 and metric in gen.SAFE_METRICS:
+        case["int_features"] = True
+    if rng.random() < 0.08:
+        case["I_onthefly"] = [int(v) for v in rng.integers(0, max(2, n // 2), size=n)]
     if allow_pre and rng.random() < 0.25:
         # pre-computed distances.  unsupervised: N x N matrix of a larger dataset, shuffled training subset, queries anywhere.
         # KNN-supervised demands an n_train x n_train matrix: training = a permutation of 0..n-1, validation/query indices inside it.
-        mk = gen.pick(rng, ["M1", "M2", "M3", "MB"])
+        mk = gen.pick(rng, ["M1", "M2", "M3", "MB", "MN"])
+        case.pop("int_features", None)
+        case.pop("I_onthefly", None)
         if model == "knn":
             N = n
             I = rng.permutation(n)
             IV = rng.integers(0, n, size=len(case["V"]))
         else:
-            N = n + int(rng.integers(1, 8))
+            N = n + int(rng.integers(0, 8))
             I = rng.permutation(N)[:n]
             IV = None
         D = gen.make_matrix(rng, N, mk)
@@ -71,6 +85,8 @@ def gen_knn_case(rng, tier, *, model=None, metrics=None, max_n=None, gclasses=No
 def arrays(case):
     X = np.array(case["X"], dtype=float)
     d = X.shape[1]
+    if case.get("int_features"):
+        X = X.astype(np.int64)
     return (X, np.array(case["Y"], dtype=int), np.array(case["V"], dtype=float).reshape(-1, d),
             np.array(case["YV"], dtype=int), np.array(case["Q"], dtype=float).reshape(-1, d))
 
@@ -97,7 +113,11 @@ def fit_model(case, m=None, before_final=None):
         finally:
             if tmp:
                 shutil.rmtree(tmp, ignore_errors=True)
-    I = np.array(pre["I"], dtype=int) if pre else None
+    I = np.array(pre["I"], dtype=int) if pre else (np.array(case["I_onthefly"], dtype=int) if case.get("I_onthefly") else None)
+    if case.get("no_labels") and case["model"] == "unsup" and not case.get("refit") and not case.get("kwcall"):
+        if before_final is not None:
+            before_final()
+        return m, (safe_call(m.fit, X.copy()) if I is None else safe_call(m.fit, X.copy(), None, I))
     if case.get("refit"):
         # history: the same model object was fitted before on other data of the same shape (reversed rows, shifted values)
         X0, Y0 = (X[::-1] * 1.5 + 0.25).copy(), Y[::-1].copy()
